@@ -438,6 +438,48 @@ def handleApi (j : Json) : Except String Json := do
       Json.arr (r.map (fun p => Json.arr #[jStrs p.1, toJson p.2])).toArray) (Api.tabulate fs trials e)
   | _ => throw s!"unknown api method {m}"
 
+def parseLFactor (j : Json) : Except String Layout.LFactor := do
+  return { nlevels := (← getNat j "nlevels"), complex := (← getBool j "complex"), start := (← getNat j "start"),
+           stride := (← getNat j "stride"), sustain := (← getNat j "sustain") }
+
+def jOptPair : Option (Nat × Nat) → Json
+  | some p => Json.arr #[toJson p.1, toJson p.2]
+  | none => Json.null
+
+def handleLayout (j : Json) : Except String Json := do
+  let fs ← (← j.getObjValAs? (Array Json) "factors").toList.mapM parseLFactor
+  let b : Layout.LBlock := { factors := fs, trials := (← getNat j "trials") }
+  -- everything the harness compares, in one answer
+  let enc := (List.range fs.length).map (fun i =>
+    let f := fs.getD i default
+    (List.range b.trials).filterMap (fun t0 =>
+      if Layout.appliesTrial f (t0 + 1) then
+        some (Json.arr #[toJson (t0 + 1), jNats ((List.range f.nlevels).map (fun l => Layout.encodeVar b i l (t0 + 1)))])
+      else none))
+  let vps := Layout.variablesPerSample b
+  return Json.mkObj [("ok", Json.mkObj [
+    ("vpt", toJson (Layout.variablesPerTrial b)), ("grid", toJson (Layout.gridVariables b)), ("vps", toJson vps),
+    ("first", Json.arr ((List.range fs.length).map (fun i => jNats ((List.range (fs.getD i default).nlevels).map (fun l => Layout.firstVariableForLevel b i l)))).toArray),
+    ("encode", Json.arr (enc.map (fun l => Json.arr l.toArray)).toArray),
+    ("decode", Json.arr ((List.range vps).map (fun v => jOptPair (Layout.decodeVariable b (v + 1)))).toArray)])]
+
+def requestJson (r : Request) : Json :=
+  Json.mkObj [("rel", toJson (match r.rel with | .eq => "EQ" | .lt => "LT" | .gt => "GT")), ("k", toJson r.k), ("vars", jInts r.vars)]
+
+def handleCompile (j : Json) : Except String Json := do
+  let m ← getStr j "m"
+  let k ← getNat j "k"
+  let vars ← getInts j "vars"
+  match m with
+  | "atmost" => return Json.mkObj [("ok", Json.arr ((Compile.atMostRequests k vars).map requestJson).toArray)]
+  | "exactlyk" =>
+    match Compile.exactlyK k vars with
+    | .request r => return Json.mkObj [("ok", requestJson r)]
+    | .contradiction => return Json.mkObj [("ok", toJson "contradiction")]
+  | "atleast" => return Json.mkObj [("ok", Json.arr ((Compile.atLeastFormulas k vars).map formulaJson).toArray)]
+  | "exactlyinarow" => return Json.mkObj [("ok", Json.arr ((Compile.exactlyInARowFormulas k vars).map formulaJson).toArray)]
+  | _ => throw s!"unknown compile method {m}"
+
 def handle (j : Json) : Except String Json := do
   let op ← getStr j "op"
   match op with
@@ -448,6 +490,8 @@ def handle (j : Json) : Except String Json := do
   | "text" => handleText j
   | "spec" => handleSpec j
   | "api" => handleApi j
+  | "layout" => handleLayout j
+  | "compile" => handleCompile j
   | _ => throw s!"unknown op {op}"
 
 partial def loop (h : IO.FS.Stream) (out : IO.FS.Stream) : IO Unit := do
